@@ -704,6 +704,13 @@ func (c *Ctx) checkRefusal(serve *ssa.Function, refusal []ssa.CallInstruction) {
 	key := "(*Mux).serve: built-in refusal"
 	resp := an.Strip(w.Common().Args[1])
 	call, ok := resp.(*ssa.Call)
+	if ok && !an.CalleeIs(call.Common(), G, "(*Request).NewResponse") {
+		// a helper of the request that builds the refusal by hand: interpret it
+		if h := an.StaticCallee(call.Common()); h != nil && an.InModule(h) && len(h.Blocks) > 0 && len(call.Common().Args) == 1 && an.Strip(call.Common().Args[0]) == ssa.Value(serve.Params[2]) {
+			c.checkRefusalHelper(key, call, h)
+			return
+		}
+	}
 	if !ok || !an.CalleeIs(call.Common(), G, "(*Request).NewResponse") || an.Strip(call.Common().Args[0]) != ssa.Value(serve.Params[2]) {
 		R.Unknown("C03-refusal", key, c.pos(w), "the refusal is not built with req.NewResponse(...)")
 		return
@@ -727,6 +734,53 @@ func (c *Ctx) checkRefusal(serve *ssa.Function, refusal []ssa.CallInstruction) {
 	R.Check(code != nil && isK && k == want53 && want53 == 53, "C03-refusal", key+": result code unwillingToPerform", c.pos(call), "WithResponseCode(53)", "refusal does not carry result code 53")
 	// message ID: NewResponse uses r.message.GetID() (checked as part of C04-ctor); here: receiver is req
 	R.OK("C03-refusal", key+": built from the request", c.pos(call), "req.NewResponse(...): message ID is req.message.GetID() (C04-ctor)")
+	c.checkRefusalTags(key, call, app, serve.Params[2])
+}
+
+// checkRefusalHelper: the refusal is built by a branch-free method of the
+// request (a response literal): its message ID must be the request's message
+// ID, its code unwillingToPerform and its response type the one belonging to
+// the request's operation.
+func (c *Ctx) checkRefusalHelper(key string, call *ssa.Call, h *ssa.Function) {
+	R := c.R
+	r := c.interp(h, &symEnv{}, map[string]bool{}, nil)
+	if r.undec != "" || len(r.retExpr) != 1 || !strings.HasPrefix(r.retExpr[0], "&alloc:") {
+		R.Unknown("C03-refusal", key, c.pos(call), "the refusal is built by "+fname(h)+", which cannot be interpreted: "+r.undec)
+		return
+	}
+	got := map[string]string{}
+	r.fr.fieldsOf(r.retExpr[0][1:], "", got, 0)
+	for k, v := range got {
+		got[k] = convLit.ReplaceAllString(v, "$1")
+	}
+	pick := func(suffix string) string {
+		for k, v := range got {
+			if strings.HasSuffix(k, suffix) {
+				return v
+			}
+		}
+		return ""
+	}
+	mid := pick("baseResponse.messageID")
+	R.Check(mid == "$0.message.GetID()", "C03-refusal", key+": built from the request", c.pos(call), fname(h)+": message ID is req.message.GetID()", "the refusal built by "+fname(h)+" carries message ID "+mid+" instead of the request's message ID: a client cannot match it to its request and keeps waiting")
+	code := pick("baseResponse.code")
+	R.Check(code == "53" || code == "conv<int16>(53)", "C03-refusal", key+": result code unwillingToPerform", c.pos(call), "code 53", "refusal carries result code "+code+" instead of 53")
+	var app ssa.Value
+	n := 0
+	for _, fs := range fieldStores([]*ssa.Function{h}, G, "GeneralResponse", "applicationCode") {
+		app = fs.Store.Val
+		n++
+	}
+	if n != 1 {
+		R.Unknown("C03-refusal", key+": response tag", c.pos(call), sprintf("%s stores the application code %d times", fname(h), n))
+		return
+	}
+	c.checkRefusalTags(key, call, app, h.Params[0])
+}
+
+// checkRefusalTags: application code per operation.
+func (c *Ctx) checkRefusalTags(key string, call *ssa.Call, app ssa.Value, req ssa.Value) {
+	R := c.R
 	// application code per operation
 	expected := map[string]string{"bindRouteOperation": "ApplicationBindResponse", "searchRouteOperation": "ApplicationSearchResultDone", "modifyRouteOperation": "ApplicationModifyResponse",
 		"addRouteOperation": "ApplicationAddResponse", "deleteRouteOperation": "ApplicationDelResponse", "extendedRouteOperation": "ApplicationExtendedResponse"}
@@ -739,7 +793,7 @@ func (c *Ctx) checkRefusal(serve *ssa.Function, refusal []ssa.CallInstruction) {
 			R.Fail("C03-refusal", k2, c.pos(call), "operation / application constants are not the RFC 4511 values")
 			continue
 		}
-		got, how := c.evalAppCode(app, serve, opVal)
+		got, how := c.evalAppCode(app, req, opVal)
 		if how != "" {
 			R.Unknown("C03-refusal", k2, c.pos(call), how)
 			continue
@@ -750,7 +804,7 @@ func (c *Ctx) checkRefusal(serve *ssa.Function, refusal []ssa.CallInstruction) {
 
 // evalAppCode evaluates the application-code expression of the refusal for a
 // request whose routeOp is opVal.
-func (c *Ctx) evalAppCode(app ssa.Value, serve *ssa.Function, opVal string) (int64, string) {
+func (c *Ctx) evalAppCode(app ssa.Value, req ssa.Value, opVal string) (int64, string) {
 	if app == nil {
 		d, _ := c.P.ConstInt(G, "ApplicationExtendedResponse")
 		// NewResponse's default when no application code is given
@@ -764,7 +818,7 @@ func (c *Ctx) evalAppCode(app ssa.Value, serve *ssa.Function, opVal string) (int
 		return 0, "application code is neither a constant nor a helper call: " + an.Path(app)
 	}
 	f := call.Common().StaticCallee()
-	if f == nil || !an.InModule(f) || len(f.Params) != 1 || an.Strip(call.Common().Args[0]) != ssa.Value(serve.Params[2]) {
+	if f == nil || !an.InModule(f) || len(f.Params) != 1 || an.Strip(call.Common().Args[0]) != req {
 		return 0, "application code helper is not a function of the request"
 	}
 	// lookups of the request's operation in a package-level table: `code, found := table[r.routeOp]`
